@@ -1344,8 +1344,8 @@ func bodyPrint(fi *FuncInfo) []string {
 		return true
 	})
 	ks := keys(set)
-	if len(ks) > 80 {
-		ks = ks[:80]
+	if len(ks) > 300 {
+		ks = ks[:300]
 	}
 	return ks
 }
